@@ -49,6 +49,8 @@ func pathDocs() []func() jsonline.Row {
 		},
 		parse(`{}`),
 		parse(`{"a":1}`),
+		// a long array (longer than any path): objects, scalars, nulls, nested arrays and objects lacking the key
+		parse(`{"a":[` + strings.Repeat(`{"b":1},7,null,{"b":{"c":2}},{"x":0},[{"b":3}],`, 6) + `{"b":"last"}],"arr":{"k":[` + strings.Repeat(`{"v":[{"w":1},{"w":2}]},`, 5) + `{"v":3}]}}`),
 		func() jsonline.Row {
 			// mixed: a built row holding a parsed row holding a built value
 			inner := jsonline.NewRow()
